@@ -98,6 +98,13 @@ CHECKS = {
         technique=MC_TECH + " (all object chains x all object/type functions, differential against reference definitions)",
         design="DESIGN.md §4 C13",
     ),
+    "C20": dict(
+        category="exploration",
+        text="Every token sequence, character string, number-like and text-block-like string of the C06 sequence spaces through the jrsonnet-fmt pipeline: no panic, no hang, declined whenever the evaluator's parser rejects the text, fixed point whenever it formats. Every generated whole-grammar program (<= k constructs) x indentation {tabs,2,4}, plus every single insertion of newline / blank line / block comment / line comment / trailing comment / hash comment at every token boundary, one token per line, plus the repository's own inputs: format(format(x)) = format(x).",
+        note="Trusted: the pipeline function mirrors cmds/jrsonnet-fmt/src/main.rs with conv_limit 0.",
+        technique=MC_TECH + " (all token/character sequences + all generated programs x layouts x indentation settings, fixed-point and crash oracles)",
+        design="DESIGN.md §4 C20",
+    ),
 }
 
 
